@@ -86,8 +86,10 @@ func normalizeSymbolicLinkAndEnsurePortable(path, target string) (string, error)
 	pathDepth := strings.Count(path, "/")
 	for _, component := range strings.Split(target, "/") {
 		// Update the depth.
-		if component == "." {
-			// No change to depth.
+		if component == "." || component == "" {
+			// No change to depth. An empty component (as produced by a doubled
+			// or trailing slash) is skipped by path resolution and thus doesn't
+			// descend.
 		} else if component == ".." {
 			pathDepth--
 		} else {
